@@ -4968,8 +4968,20 @@ impl PeerConnectionInner {
         // (or be reached from) separate per-section answer ports.
         let legacy_sip =
             self.config.sdp_compatibility == crate::config::SdpCompatibilityMode::LegacySip;
+        // A re-offer keeps the transport layout of the established session: when
+        // the session was negotiated without BUNDLE (peer in LegacySip mode, or
+        // any un-bundled offer we answered) each m-line already has its own
+        // transport on both sides, and starting to bundle on a later offer would
+        // move every section onto the first transport while the peer keeps
+        // sending to / receiving on the per-section sockets.
+        let established_unbundled = sdp_type == SdpType::Offer
+            && self.remote_description.lock().as_ref().is_some_and(|d| {
+                d.media_sections.len() > 1 && !PeerConnection::sdp_has_bundle(d)
+            });
         let will_bundle = match sdp_type {
-            SdpType::Offer => !legacy_sip && ordered_transceivers.len() > 1,
+            SdpType::Offer => {
+                !legacy_sip && ordered_transceivers.len() > 1 && !established_unbundled
+            }
             SdpType::Answer => remote_offered_bundle,
             _ => false,
         };
